@@ -49,14 +49,6 @@ Inductive outcome :=
 | OMissing        (* error!(".. does not exist") *)
 | OIoErr.         (* `?` on reading the document: main returns Err, nothing is logged for it *)
 
-(* deviation switches: the two call sites where cli.rs passes `None` instead of the enabled
-   features.  [as_in_repo] is the code as it stands (known findings kf-c18-cbor-features,
-   kf-c18-stdin-json-features); [repaired] is the code after design.d/C18-fix-features.patch.
-   The check decides which one to compare with by replaying the findings' witnesses. *)
-Record devs := { dev_cbor_drops : bool; dev_stdin_json_drops : bool }.
-Definition as_in_repo : devs := {| dev_cbor_drops := true; dev_stdin_json_drops := true |}.
-Definition repaired : devs := {| dev_cbor_drops := false; dev_stdin_json_drops := false |}.
-
 (* `cddl [--ci] validate -d <schema> [-f a,b] [--csv-header] [-j ..]* [-c ..]* [--csv ..]* [--stdin]` after clap *)
 Record vargs := {
   v_ci : bool;
@@ -104,18 +96,18 @@ Definition expected_call (a : vargs) (r : route) (s : src) : call :=
   end.
 
 Section Model.
-Variable dv : devs.
 Variable lib : call -> bool.
 
-(* the call cli.rs makes *)
+(* the call cli.rs makes; every route threads the enabled features (since 8c0094b also the
+   --cbor loop, :230, and the JSON branch of --stdin, :299) *)
 Definition made_call (a : vargs) (r : route) (s : src) : call :=
   match r with
   | RJson => CallJson (s_id s) (v_feats a)                                         (* :193-197 *)
-  | RCbor => CallCbor (s_id s) (if dev_cbor_drops dv then None else v_feats a)     (* :230 `None` *)
+  | RCbor => CallCbor (s_id s) (v_feats a)                                         (* :230 *)
   | RCsv => CallCsv (s_id s) (has_header (v_hdr a)) (v_feats a)                    (* :266-271 *)
   | RStdin =>
       if s_utf8 s                                                                  (* :297 from_utf8 *)
-      then CallJson (s_id s) (if dev_stdin_json_drops dv then None else v_feats a) (* :299 `None` *)
+      then CallJson (s_id s) (v_feats a)                                           (* :299 *)
       else CallCbor (s_id s) (v_feats a)                                           (* :317 *)
   end.
 
@@ -157,24 +149,6 @@ Definition validate (a : vargs) : result :=
       {| r_schema := EvSchemaErr; r_reports := []; r_fail := true |}                   (* :176-181 `?` *)
   | SOk => let (rs, e) := run a (todo a) in {| r_schema := EvNone; r_reports := rs; r_fail := e |}
   end.
-
-(* classifiers of the two open findings, on one processed document *)
-Definition kf_cbor_features_dropped (a : vargs) (x : item) : bool :=
-  match it_route x with
-  | RCbor => dev_cbor_drops dv
-             && negb (Bool.eqb (lib (CallCbor (s_id (it_src x)) None)) (lib (CallCbor (s_id (it_src x)) (v_feats a))))
-  | _ => false
-  end.
-
-Definition kf_stdin_json_features_dropped (a : vargs) (x : item) : bool :=
-  match it_route x with
-  | RStdin => dev_stdin_json_drops dv && s_utf8 (it_src x)
-              && negb (Bool.eqb (lib (CallJson (s_id (it_src x)) None)) (lib (CallJson (s_id (it_src x)) (v_feats a))))
-  | _ => false
-  end.
-
-Definition respects_features (a : vargs) (x : item) : bool :=
-  negb (kf_cbor_features_dropped a x || kf_stdin_json_features_dropped a x).
 
 Definition usable (x : item) : bool :=
   present (it_route x) (it_src x) && readable (it_route x) (it_src x).
@@ -266,7 +240,7 @@ Definition schema_of_code (c : N) : sstatus :=
   match c with 0 => SOk | 1 => SMissing | 2 => SUnreadable | 3 => SNoParse | _ => SNoRoot end.
 
 (* one `validate` case.  [f]: None = no --features, Some l = the list (names abstracted to numbers) *)
-Definition case_validate (dcb dsj : bool) (ci hdr : bool) (f : feats) (schema : N)
+Definition case_validate (ci hdr : bool) (f : feats) (schema : N)
            (js cs ss : list dsrc) (stdin : option dsrc) : list N :=
   let '(j, tj) := mk_srcs 0 js in
   let '(c, tc) := mk_srcs 100 cs in
@@ -274,8 +248,7 @@ Definition case_validate (dcb dsj : bool) (ci hdr : bool) (f : feats) (schema : 
   let '(i, ti) := mk_srcs 300 (match stdin with Some d => [d] | None => [] end) in
   let a := {| v_ci := ci; v_schema := schema_of_code schema; v_feats := f; v_hdr := hdr;
               v_json := j; v_cbor := c; v_csv := s; v_stdin := hd_error i |} in
-  render (validate {| dev_cbor_drops := dcb; dev_stdin_json_drops := dsj |}
-                   (lib_of_table (tj ++ tc ++ ts ++ ti)) a).
+  render (validate (lib_of_table (tj ++ tc ++ ts ++ ti)) a).
 
 Definition fstatus_of_code (c : N) : fstatus :=
   match c with 0 => FParses | 1 => FMissing | 2 => FUnreadable | _ => FNoParse end.
